@@ -140,6 +140,9 @@ type pageScript struct {
 	// goes on. speculative: the query is idempotent and has a speculative execution policy
 	// (whose delay never expires here), so that it runs under the executor's own context.
 	releaseEarly, speculative bool
+	// releaseAfter: when the caller is done with the query it gives the Query back to the
+	// driver's pool (Query.Release); the next Session.Query of anybody may get that object
+	releaseAfter bool
 	// ctxMode: the caller gives the query a context: 0 no, 1 as the first option, 2 as the
 	// last one (after PageState and everything else) - options commute
 	ctxMode int
@@ -396,6 +399,10 @@ func (pr *pageRun) drawScript(tp *kernel.Tape, ti, oi, qid, proto, sessPageSize 
 	if tp.Chance(1, 5) {
 		s.speculative = true
 		pr.k.Fault("page.idempotent-with-speculative-policy")
+	}
+	if !s.releaseEarly && tp.Chance(1, 3) {
+		s.releaseAfter = true
+		pr.k.Fault("page.query-released-when-done")
 	}
 	if tp.Chance(1, 3) {
 		s.scanGap = true
@@ -1064,8 +1071,19 @@ func (pr *pageRun) runQuery(t *kernel.Task, sess *gocql.Session, s *pageScript) 
 	if !pr.iterate(t, s, g, q, s.consumer, s.abandonAt) {
 		return false
 	}
-	if !s.reexec {
+	release := func() bool {
+		if s.releaseAfter {
+			// (nothing of this query may still be running: an abandoned iteration can have
+			// left a prefetch behind)
+			if !pr.waitNoPrefetch() {
+				return false
+			}
+			q.Release()
+		}
 		return true
+	}
+	if !s.reexec {
+		return release()
 	}
 	// an abandoned iteration may have left a prefetch behind: its request belongs to the
 	// first execution, so it must have come and gone before the second one starts
@@ -1077,7 +1095,7 @@ func (pr *pageRun) runQuery(t *kernel.Task, sess *gocql.Session, s *pageScript) 
 	if !pr.iterate(t, s, g2, q, s.consumer2, 0) {
 		return false
 	}
-	return true
+	return release()
 }
 
 // iterate executes q once and consumes the result with the given consumer; abandonAt > 0
